@@ -4,7 +4,8 @@ CONSTANTS Callers = {c1, c2}
  MaxRot = 2
  MaxAtt = 3
  FreshKey = FALSE
+ MaxJunk = 0
  Dev = {}
-INVARIANTS WireIdsIncrease SeqNoRules OwnResult AcceptedNeverResent SaltPersisted NoStallNotify NoStallDeliver
+INVARIANTS WireIdsIncrease SeqNoRules OwnResult AcceptedNeverResent SaltPersisted NoStallNotify NoStallDeliver AckedAll
 PROPERTIES AllDone LoopKeepsReading
 VIEW view
